@@ -96,9 +96,9 @@ const (
 )
 
 type cliOutcome struct {
-	ReqWire [][]byte // encoding of each call's request, taken before the call
-	Results []cliResult
-	Writes  []cliWrite
+	ReqWire   [][]byte // encoding of each call's request, taken before the call
+	Results   []cliResult
+	Writes    []cliWrite
 	CloseAt   int
 	CloseLeft int // reads still in progress at the instant Close returned
 	Problem   string
